@@ -479,7 +479,8 @@ pub fn drive<P: PT>(seed: u64, runs: usize, events: usize, prof: &Profile, out: 
             if on_b {
                 ev["m"] = json!("B");
             }
-            let len_before = target.len() as i64 - Coll::<P>::entries(target).len() as i64;
+            // (the cached counter itself, not len(): a len() that does not use the counter must not hide the drift)
+            let len_before = target.verif_snapshot().count as i64 - Coll::<P>::entries(target).len() as i64;
             let o = apply::<P, PrefixMap<P, i32>>(target, &ev, &ctx).expect("map event");
             let snap = acct(&target.verif_snapshot());
             let tree = if prof.tree_every > 0 && i % prof.tree_every == 0 { Some(Coll::<P>::tree(target, &ctx)) } else { None };
@@ -516,7 +517,7 @@ pub fn drive<P: PT>(seed: u64, runs: usize, events: usize, prof: &Profile, out: 
                 l["sr"] = json!(true);
                 writeln!(out, "{}", serde_json::to_string(&l).unwrap()).unwrap();
             }
-            let len_after = target.len() as i64 - Coll::<P>::entries(target).len() as i64;
+            let len_after = target.verif_snapshot().count as i64 - Coll::<P>::entries(target).len() as i64;
             if len_after < 0 && len_after != len_before {
                 // finding F4 (TrieViewMut::set on a value-less node): the counter lags behind and the
                 // next removal would underflow it; the run ends here
